@@ -496,19 +496,21 @@ def stateCore (focus : String) (c : Case) : Acc × String := Id.run do
             let blk := x.extract (j * n) ((j + 1) * n)
             let d := maxDiff blk y
             acc := { acc with compared := acc.compared + 1 }
-            if !(d ≤ tolT x) then acc := { acc with mon := acc.mon.push s!"step{si}:{pre}-res:{fmtF d}" }
+            -- relative to the block's OWN magnitude: right-hand sides are independent problems and may
+            -- differ by hundreds of orders of magnitude
+            if !(d ≤ tolT y) then acc := { acc with mon := acc.mon.push s!"step{si}:{pre}-res:{fmtF d}" }
           else if let (some a, some b) := (o.res, t.res) then
             if a.isSome != b.isSome then acc := { acc with mon := acc.mon.push s!"step{si}:{pre}-res-presence" }
           if let (some (some x), some (some y)) := (o.coef, t.coef) then
             let colj := (Array.range m).map fun i => x.get i j
             let d := maxDiff colj y.a
             acc := { acc with compared := acc.compared + 1 }
-            if !(d ≤ tolT x.a) then acc := { acc with mon := acc.mon.push s!"step{si}:{pre}-coef:{fmtF d}" }
+            if !(d ≤ tolT y.a) then acc := { acc with mon := acc.mon.push s!"step{si}:{pre}-coef:{fmtF d}" }
           if let (some (some x), some (some y)) := (o.jac, t.jac) then
             let blk := (FMat.ofFn n p fun i k => x.get (i + j * n) k).a
             let d := maxDiff blk y.a
             acc := { acc with compared := acc.compared + 1 }
-            if !(d ≤ tolT x.a) then acc := { acc with mon := acc.mon.push s!"step{si}:{pre}-jac:{fmtF d}" }
+            if !(d ≤ tolT y.a) then acc := { acc with mon := acc.mon.push s!"step{si}:{pre}-jac:{fmtF d}" }
       if (step.obs.find? (·.1 == "twinR")).isSome then
         let t := step.get "twinR"
         if let (some (some x), some (some y)) := (o.res, t.res) then
